@@ -3,11 +3,15 @@
    proofs in NfaProofs.v (verdict function, gate) and NfaAcProofs.v (the antichain algorithm with
    its worklist and memo tables). *)
 From Coq Require Import List NArith Bool.
-From V Require Import Sem Prod Incl TrimDefs Lang NfaDefs NfaProofs NfaAcDefs NfaAcProofs.
+From V Require Import Sem Prod Incl TrimDefs Lang NfaDefs NfaProofs NfaAcDefs NfaAcProofs SharedTable.
 
 (* the verdict function of the three selections *)
 Theorem C09_exact : forall v A B, wincl_model v A B = true <-> wlincl A B.
 Proof. exact wincl_model_exact. Qed.
+(* copies of one NFA share their transitions; inclusion between them depends on the start states too *)
+Theorem C09_shared_table_starts_matter : edges nN = edges nM /\ fsub (nfinals nN) (nfinals nM) /\ ~ wlincl nN nM.
+Proof. exact wshared_starts_matter. Qed.
+
 Print Assumptions C09_exact.
 Theorem C09_agree : forall v v' A B, wincl_model v A B = wincl_model v' A B.
 Proof. exact wincl_model_agree. Qed.
@@ -61,3 +65,4 @@ Print Assumptions C09_memo_refuted.
 (* D6: union automaton built from the unsanitized operands *)
 Theorem C09_congr_operands_refuted : exists A B, wincl_congr_old A B = false /\ wincl_dec A B = true.
 Proof. exact congr_operands_refuted. Qed.
+Print Assumptions C09_shared_table_starts_matter.
